@@ -686,7 +686,15 @@ impl Axecutor {
             if self.mem_init_zero(start, length).is_ok() {
                 break;
             }
-            start += length;
+            // Always make progress (also for zero-length areas) and never wrap around
+            start = match start.checked_add(std::cmp::max(length, 1)) {
+                Some(next) => next,
+                None => {
+                    return Err(AxError::from(
+                        "Could not find a suitable memory start address",
+                    ))
+                }
+            };
         }
 
         Ok(start)
@@ -715,7 +723,15 @@ impl Axecutor {
             if res.is_ok() {
                 break;
             }
-            start += data.len() as u64;
+            // Always make progress (also for empty data) and never wrap around
+            start = match start.checked_add(std::cmp::max(data.len() as u64, 1)) {
+                Some(next) => next,
+                None => {
+                    return Err(AxError::from(
+                        "Could not find a suitable memory start address",
+                    ))
+                }
+            };
         }
 
         Ok(start)
